@@ -5,7 +5,7 @@ use serde_json::{json, Value};
 
 use crate::gen_html::{self, gen_html, pick_size, SizeClass, CONTEXTS, TAGS};
 use crate::html_stream::*;
-use crate::model::{Call, Kind, ModelSink};
+use crate::model::{Call, Id, Kind, ModelSink};
 use crate::rng::{fnv1a, mix, Rng};
 use crate::schedule::{gen_schedule, SchedKnobs, Schedule};
 use crate::world::{greedy_min, string_candidates, CaseInfo, Stats, Violation, World};
@@ -144,6 +144,11 @@ fn gen_meta_input(rng: &mut Rng, thorough: bool) -> String {
         out.push_str(rng.pick_str(&pre));
         if rng.chance(1, 4) {
             gen_html::gen_text(rng, &mut out, 2);
+        }
+        if rng.chance(1, 6) {
+            // a script pause right before the declaration: whatever the embedder does to the DOM there
+            // (F11) happens between the context and the meta
+            out.push_str(rng.pick_str(&["<script></script>", "<script>x</script>", "<tr><script></script>", "<tbody><script></script>"]));
         }
         let tag = *rng.pick(&["meta", "meta", "meta", "meta", "META", "link", "base", "metax", "bgsound", "basefont"]);
         if rng.chance(2, 5) {
@@ -470,6 +475,20 @@ impl HtmlWorld {
         }
         let _ = &mut opts;
         let mut schedule = gen_schedule(rng, &input, self.knobs());
+        if self.prop == HProp::C19 && matches!(pipeline, Pipeline::Tree { .. }) && rng.chance(1, 5) {
+            // F11 in C19: a script takes an element out of the document (half of the time one the
+            // builder holds: table, tbody, template, head, body …) at one of the first script pauses
+            for at in 0..2usize {
+                if rng.chance(2, 3) {
+                    let remove: Vec<u32> = vec![rng.below(1 << 16) as u32 | if rng.chance(3, 4) { 1 << 16 } else { 0 }];
+                    match schedule.pauses.iter_mut().find(|p| p.at == at) {
+                        Some(p) => p.remove = remove,
+                        None => schedule.pauses.push(crate::schedule::PauseAct { at, deliver_before_resume: 0, inject: None, remove }),
+                    }
+                }
+            }
+            schedule.pauses.sort_by_key(|p| p.at);
+        }
         if self.prop == HProp::C18 && rng.chance(1, 2) {
             // make the collector bite: the script edits the DOM at the first pauses and a collection
             // follows at every suspension
@@ -895,6 +914,7 @@ thread_local! {
     static C19_EXPECTED: std::cell::Cell<u64> = const { std::cell::Cell::new(0) };
     static C19_FROM_CONTENT: std::cell::Cell<u64> = const { std::cell::Cell::new(0) };
     static C19_META_NO_INDICATOR: std::cell::Cell<u64> = const { std::cell::Cell::new(0) };
+    static C19_SPAN_CHECKS: std::cell::Cell<u64> = const { std::cell::Cell::new(0) };
 }
 
 /// Case-preserving disguise of the two attribute names that make a meta element declare an
@@ -961,10 +981,13 @@ fn check_c19_tree(obs: &RunObs) -> Result<(), Violation> {
     // token records carry [calls_before, calls_after) ranges through mut_before/mut_after of the
     // dedicated call counter
     let mut expected: Vec<ExpectedIndicator> = vec![];
+    let probed = crate::html_stream::PROBE_TOKENS.with(|p| p.get());
     for (ti, t) in obs.toks.iter().enumerate() {
         let (c0, c1) = (t.calls_before as usize, (t.calls_after as usize).min(calls.len()));
         let is_tag = matches!(t.ev, TokEv::Tag { start: true, .. });
         let mut want: Option<String> = None;
+        let mut foster_into_detached: Option<(Id, Id)> = None;
+        let mut declared_by_charset = false;
         let mut last_mutation_is_insert = false;
         if is_tag {
             let mut meta_id = None;
@@ -979,9 +1002,17 @@ fn check_c19_tree(obs: &RunObs) -> Result<(), Violation> {
                     Call::Append { node: Some(n), .. } | Call::AppendBefore { node: Some(n), .. } | Call::AppendBasedOnParent { node: Some(n), .. }
                         if Some(*n) == meta_id =>
                     {
+                        if let Call::AppendBasedOnParent { element_detached: true, prev_inside_element: true, element, prev, .. } = call {
+                            // "the meta element is already in the tree": the table it is foster-parented
+                            // around has been taken out of the document (by a script), so it goes to the
+                            // element above that table on the stack of open elements — never into the
+                            // removed table's own subtree
+                            foster_into_detached = Some((*element, *prev));
+                        }
                         last_mutation_is_insert = true;
                         let get = |name: &str| attrs_of.iter().find(|a| a.ns.is_empty() && a.local == name).map(|a| a.value.clone());
                         if let Some(cs) = get("charset") {
+                            declared_by_charset = true;
                             want = Some(cs);
                         } else if get("http-equiv").map(|v| v.eq_ignore_ascii_case("content-type")).unwrap_or(false) {
                             if let Some(content) = get("content") {
@@ -1014,6 +1045,38 @@ fn check_c19_tree(obs: &RunObs) -> Result<(), Violation> {
         match (want, t.answer == ANS_INDICATOR) {
             (Some(label), true) => {
                 C19_EXPECTED.with(|c| c.set(c.get() + 1));
+                // "for each meta start tag that … carries a charset attribute": the declaring attribute
+                // names have to be in the stretch of input this tag token was made from (between the
+                // previous token's emission and this one's), not inherited from anywhere else
+                if probed && !t.in_end {
+                    let start = obs.toks[..ti].iter().rev().find(|p| !matches!(p.ev, TokEv::Error(_))).map(|p| p.consumed).unwrap_or(0);
+                    let (mut a, mut b) = (start.min(obs.logical.len()), t.consumed.min(obs.logical.len()));
+                    while a > 0 && !obs.logical.is_char_boundary(a) {
+                        a -= 1;
+                    }
+                    while b < obs.logical.len() && !obs.logical.is_char_boundary(b) {
+                        b += 1;
+                    }
+                    if a < b {
+                        let span = obs.logical[a..b].to_ascii_lowercase();
+                        let names: &[&str] = if declared_by_charset { &["charset"] } else { &["http-equiv", "content"] };
+                        C19_SPAN_CHECKS.with(|c| c.set(c.get() + 1));
+                        for name in names {
+                            if !span.contains(name) {
+                                return Err(Violation::new(
+                                    "indicator-for-attribute-not-in-tag",
+                                    format!("token #{ti} {:?} raised an EncodingIndicator, but the input this tag was read from ({:?}) has no `{name}` attribute", t.ev, span.chars().take(200).collect::<String>()),
+                                ));
+                            }
+                        }
+                    }
+                }
+                if let Some((element, prev)) = foster_into_detached {
+                    return Err(Violation::new(
+                        "indicator-meta-not-in-tree",
+                        format!("token #{ti} {:?}: the meta element was foster-parented around node {element}, which has no parent, and put under node {prev} inside that detached subtree: it is not in the tree when the indicator is returned", t.ev),
+                    ));
+                }
                 if !last_mutation_is_insert {
                     return Err(Violation::new(
                         "indicator-tree-mutated-after-insert",
@@ -1109,7 +1172,9 @@ fn strip_doctype_line(nf: &str) -> String {
 impl HtmlWorld {
     fn run_checked(&self, case: &HtmlCase, flip: &Option<String>, stats: &mut Stats, digest: &mut u64, toggles: &[String]) -> Result<(), Violation> {
         let record = self.prop == HProp::C19;
-        crate::html_stream::PROBE_TOKENS.with(|p| p.set(self.prop == HProp::C09));
+        // per-token consumption offsets: always in C09; in C19 for one case in four (they tell which
+        // stretch of the input a tag token came from), not more, because the measurement touches the queue
+        crate::html_stream::PROBE_TOKENS.with(|p| p.set(self.prop == HProp::C09 || (self.prop == HProp::C19 && case.input.len() % 4 == 0)));
         if self.prop == HProp::C08 {
             return self.check_c08(case, flip, stats, digest);
         }
@@ -1208,7 +1273,14 @@ impl HtmlWorld {
                         stats.add("probe_indicator_expected_and_raised", C19_EXPECTED.with(|c| c.replace(0)));
                         stats.add("probe_indicator_label_extracted_from_content", C19_FROM_CONTENT.with(|c| c.replace(0)));
                         stats.add("probe_content_type_meta_without_extractable_charset", C19_META_NO_INDICATOR.with(|c| c.replace(0)));
+                        stats.add("probe_indicator_attributes_located_in_the_tag_source", C19_SPAN_CHECKS.with(|c| c.replace(0)));
                         r19?;
+                        if case.schedule.pauses.iter().any(|p| !p.remove.is_empty()) {
+                            // a script edited the DOM (F11): the one-piece reference has no such script,
+                            // so only the history check above applies
+                            stats.add("F11_script_removed_element", obs.stats.script_removals);
+                            return Ok(());
+                        }
                         // same indicator sequence and transparent resumption under every schedule
                         let r = run_html(&reference_case(case, &obs.logical), false, false);
                         compare_runs(&r, &obs, false, true)?;
